@@ -466,15 +466,29 @@ impl Link {
         let do_rand = self.rand_partition(global_config.message_loss(), rand);
         match (self.state_a_b, self.state_b_a) {
             (State::Healthy, _) | (_, State::Healthy) if do_rand => {
-                self.state_a_b = State::RandPartition;
-                self.state_b_a = State::RandPartition;
+                // Only healthy directions fail at random; a direction that was
+                // partitioned explicitly stays that way until it is explicitly
+                // repaired.
+                if let State::Healthy = self.state_a_b {
+                    self.state_a_b = State::RandPartition;
+                }
+                if let State::Healthy = self.state_b_a {
+                    self.state_b_a = State::RandPartition;
+                }
 
                 self.sent.clear();
             }
             (State::RandPartition, _) | (_, State::RandPartition)
                 if self.rand_repair(global_config.message_loss(), rand) =>
             {
-                self.release();
+                // Only randomly failed directions are repaired at random.
+                if let State::RandPartition = self.state_a_b {
+                    self.state_a_b = State::Healthy;
+                }
+                if let State::RandPartition = self.state_b_a {
+                    self.state_b_a = State::Healthy;
+                }
+                self.reschedule_held();
             }
             _ => {}
         }
@@ -493,6 +507,11 @@ impl Link {
     fn release(&mut self) {
         self.state_a_b = State::Healthy;
         self.state_b_a = State::Healthy;
+        self.reschedule_held();
+    }
+
+    // Any held messages are scheduled for delivery.
+    fn reschedule_held(&mut self) {
         for sent in &mut self.sent {
             if let DeliveryStatus::Hold = sent.status {
                 sent.deliver(self.now);
